@@ -101,6 +101,102 @@ func CallsTo(fn *ssa.Function, objs ...*types.Func) []ssa.CallInstruction {
 	return out
 }
 
+// CallsToVia returns the calls in fn that reach one of objs directly or through a helper: a statically called
+// function of the same package (no closures) that itself contains such a call (up to three helper levels). The
+// returned instructions are always instructions of fn, so they can serve as the sink of a path query over fn; with
+// callee inlining the helper's own branches and events are part of the explored paths.
+func CallsToVia(fn *ssa.Function, objs ...*types.Func) []ssa.CallInstruction {
+	var out []ssa.CallInstruction
+	ForEachInstr(fn, func(in ssa.Instruction) {
+		call, ok := in.(ssa.CallInstruction)
+		if !ok {
+			return
+		}
+		if IsCallTo(in, objs...) {
+			out = append(out, call)
+			return
+		}
+		if cf := CalleeFn(call); cf != nil && cf.Pkg == fn.Pkg && cf != fn && fnReaches(cf, 3, map[*ssa.Function]bool{fn: true}, objs...) {
+			out = append(out, call)
+		}
+	})
+	return out
+}
+
+func fnReaches(f *ssa.Function, depth int, seen map[*ssa.Function]bool, objs ...*types.Func) bool {
+	if f == nil || f.Blocks == nil || seen[f] || depth == 0 {
+		return false
+	}
+	seen[f] = true
+	hit := false
+	ForEachInstr(f, func(in ssa.Instruction) {
+		if hit {
+			return
+		}
+		if IsCallTo(in, objs...) {
+			hit = true
+			return
+		}
+		if call, ok := in.(ssa.CallInstruction); ok {
+			if cf := CalleeFn(call); cf != nil && cf.Pkg == f.Pkg && fnReaches(cf, depth-1, seen, objs...) {
+				hit = true
+			}
+		}
+	})
+	return hit
+}
+
+// HostsOf returns fn and the same-package helpers reachable from it (statically, up to three levels) that contain a
+// direct call to one of objs: the functions in which a rule about that call has to be evaluated.
+func HostsOf(fn *ssa.Function, objs ...*types.Func) []*ssa.Function {
+	var out []*ssa.Function
+	seen := map[*ssa.Function]bool{}
+	var walk func(f *ssa.Function, depth int)
+	walk = func(f *ssa.Function, depth int) {
+		if f == nil || f.Blocks == nil || seen[f] || depth < 0 {
+			return
+		}
+		seen[f] = true
+		if len(CallsTo(f, objs...)) > 0 {
+			out = append(out, f)
+		}
+		ForEachInstr(f, func(in ssa.Instruction) {
+			if call, ok := in.(ssa.CallInstruction); ok {
+				if cf := CalleeFn(call); cf != nil && cf.Pkg == f.Pkg {
+					walk(cf, depth-1)
+				}
+			}
+		})
+	}
+	walk(fn, 3)
+	return out
+}
+
+// HostsOfDeep is HostsOf where the call may also sit in a closure of the host.
+func HostsOfDeep(fn *ssa.Function, objs ...*types.Func) []*ssa.Function {
+	var out []*ssa.Function
+	seen := map[*ssa.Function]bool{}
+	var walk func(f *ssa.Function, depth int)
+	walk = func(f *ssa.Function, depth int) {
+		if f == nil || f.Blocks == nil || seen[f] || depth < 0 {
+			return
+		}
+		seen[f] = true
+		if len(CallsToDeep(f, objs...)) > 0 {
+			out = append(out, f)
+		}
+		ForEachInstr(f, func(in ssa.Instruction) {
+			if call, ok := in.(ssa.CallInstruction); ok {
+				if cf := CalleeFn(call); cf != nil && cf.Pkg == f.Pkg && cf.Parent() == nil {
+					walk(cf, depth-1)
+				}
+			}
+		})
+	}
+	walk(fn, 3)
+	return out
+}
+
 // CallsToDeep is CallsTo over fn and all its (nested) anonymous functions.
 func CallsToDeep(fn *ssa.Function, objs ...*types.Func) []ssa.CallInstruction {
 	if fn == nil {
